@@ -153,3 +153,45 @@ Print Assumptions example_network_Z.
 Theorem live_ode_text_pieces : ode_content_fstrings = (["{}[{}] = {};"; "y[IDX_{}]"; " - {}[{}]*{}"; " + {}[{}]*{}"; " - {}"; "{}[{}]"; " + {}"; "{}[{}]"; "y[IDX_{}]"; " + ({}) * {}"; " + {}"; "({})"; " + {}[{}] * {}"; " + {}"; "{}[{}]"; " - {}[{}] * {}"; " - {}"; "{}[{}]"; "ydot[IDX_{}]"; "(gamma - 1.0) * ( {} ) / kerg / npar"; "(gamma - 1.0) * ( {} ) / kerg / npar"; "{} = {};"; "{}"; "join:*"; "join:*"; "join:*"; "join:*"; "join:*"; "join:*"; "join:*"; "join:*"; "join:*"; "join:*"])%string.
 Proof. reflexivity. Qed.
 Print Assumptions live_ode_text_pieces.
+
+(* ---- the batched (cuSPARSE) kernels.  FexKernel / JacKernel run one grid-stride loop per thread over the systems of a batch:
+   "for (cur = tid; cur < nsystem; cur += stride)" with tid = blockIdx.x * blockDim.x + threadIdx.x, stride = blockDim.x * gridDim.x.
+   Whatever the launch geometry, every system of the batch is visited by exactly one thread (the one with tid = cur mod stride), exactly
+   once, and no thread leaves the batch: the per-system claim of this property is therefore a claim about the loop body alone ... *)
+From Naunet Require Import Model.Batch Proofs.BatchProofs.
+Theorem batch_every_system_once : forall gs n c, 0 < gs -> c < n ->
+  (forall tidx, tidx < gs -> (In c (thread_visits gs n tidx) <-> tidx = c mod gs)) /\
+  (forall tidx, NoDup (thread_visits gs n tidx)).
+Proof. exact grid_stride_partition. Qed.
+Print Assumptions batch_every_system_once.
+
+Theorem batch_no_system_outside : forall gs n tidx c, 0 < gs -> In c (thread_visits gs n tidx) -> c < n.
+Proof. exact grid_stride_in_bounds. Qed.
+Print Assumptions batch_no_system_outside.
+
+(* ... and the host run of channel C (one thread of one block) visits the same systems, 0 .. n-1 in order *)
+Theorem batch_one_thread_is_every_system : forall n, thread_visits 1 n 0 = seq 0 n.
+Proof. exact one_thread_visits_all_in_order. Qed.
+Print Assumptions batch_one_thread_is_every_system.
+
+(* a body that computes f of the current system gives, for system i, f of system i whatever the other systems hold; a body that takes
+   its derived variables from system 0 (the defect repaired in 3a36a99: Temp = y[IDX_TGAS], npar = GetNumDens(y) read the base pointer
+   of the batch) differs from it on a batch of two as soon as the result depends on those variables *)
+Theorem batch_system_reads_itself : forall (S O : Type) (f : S -> O) (b : list S) (i : nat),
+  nth_error (kernel_out f b) i = option_map f (nth_error b i).
+Proof. exact kernel_pointwise. Qed.
+Print Assumptions batch_system_reads_itself.
+
+Theorem batch_system0_variables_refuted : forall (S O : Type) (f : S -> O) (g : S -> S -> O) (s0 s1 : S),
+  (forall s, g s s = f s) -> g s0 s1 <> f s1 ->
+  kernel_out_sys0 g [s0; s1] <> kernel_out f [s0; s1].
+Proof. exact sys0_kernel_differs. Qed.
+Print Assumptions batch_system0_variables_refuted.
+
+(* tie to the current /repo: the loop skeleton of both kernels as the templates write it (local names made canonical) and the
+   strides applied to the system index *)
+Theorem live_kernel_skeletons : kernel_skeletons =
+  [("FexKernel", ("cur=tid;cur<nsystem;cur+=stride", ["NEQUATIONS"]));
+   ("JacKernel", ("cur=tid;cur<nsystem;cur+=stride", ["NEQUATIONS"; "NNZ"]))]%string.
+Proof. reflexivity. Qed.
+Print Assumptions live_kernel_skeletons.
